@@ -85,6 +85,8 @@ def run_live(ctx, plan):
                 # commit: that IS the property (C12). A run that does not is repeated twice with 2x and 4x the time
                 # (20x..80x the normal duration); only the unanimous outcome is a verdict.
                 limits = [60000, 120000, 240000] if stack else [60000]
+                if not stack and os.environ.get('VERIF_LIVE_LIMIT_MS'):   # (to exercise the target-not-reached path)
+                    limits = [int(os.environ['VERIF_LIVE_LIMIT_MS'])]
                 p = res = None
                 outcomes = []
                 for lm in limits:
@@ -121,9 +123,13 @@ def run_live(ctx, plan):
                     ctx.failures.append({'key': 'Agreement', 'property': True, 'kind': 'property', 'detail': res['agreement'],
                                          'engine': 'csim-live', 'replay': None})
                 if res.get('error'):
-                    ctx.inconclusive.append('real-goroutine run %s seed %d: %s (timing dependent; not a verdict)'
-                                            % (cfg.name, seed, res['error']))
-                    continue
+                    # A relayed run (not the real reactor stack) that misses its target is no verdict about C12 and no
+                    # reason to distrust the run either: the relay has no VoteSetMaj23 exchange, so an equivocating
+                    # validator can keep a node from ever counting the precommits the others committed with (the real
+                    # reactors settle that, and the full-stack runs above carry the progress verdict). What was recorded
+                    # is still an execution of the real goroutines: it is validated like any other.
+                    ctx.cov.setdefault('live_relay_runs_target_not_reached', []).append(
+                        {'cfg': cfg.name, 'seed': seed, 'heights': res.get('heights'), 'events': res.get('events')})
                 lines = open(out).read().splitlines()
                 # the model explores rounds 0..MaxRound only: validate the prefix that stays inside
                 for i, ln in enumerate(lines):
